@@ -64,6 +64,12 @@ pub fn creds() -> Vec<Cred> {
         c("valid token truncated by one base64 group", vec![{ let mut v = ok1.clone(); while v.last() == Some(&b'=') { v.pop(); } v.truncate(v.len() - 4); v }], MustReject),
         c("valid token with appended characters", vec![[ok1.clone(), b"QUJD".to_vec()].concat()], MustReject),
         c("valid token in different case", vec![{ let mut v = ok1.clone(); for b in v[6..].iter_mut() { if b.is_ascii_lowercase() { *b = b.to_ascii_uppercase(); } } v }], MustReject),
+        // a registered token that is not presented as Basic credentials
+        c("valid token without any scheme", vec![ok1[6..].to_vec()], MustReject),
+        c("valid token behind a repeated scheme", vec![[b"Basic ".to_vec(), ok1.clone()].concat()], MustReject),
+        c("valid token behind another scheme", vec![[b"Bearer ".to_vec(), ok1[6..].to_vec()].concat()], MustReject),
+        c("valid token glued to the scheme", vec![[b"Basic".to_vec(), ok1[6..].to_vec()].concat()], MustReject),
+        c("valid token behind scheme and colon", vec![[b"Basic:".to_vec(), ok1[6..].to_vec()].concat()], MustReject),
         c("valid token without padding", vec![{ let mut v = ok2.clone(); while v.last() == Some(&b'=') { v.pop(); } v }], Either),
     ]
 }
@@ -347,7 +353,7 @@ pub fn run(args: &Args) -> i32 {
     let rep = Arc::new(Reporter::new(
         args,
         "exploration",
-        "table: 27 Proxy-Authorization cases (absent, valid x3, wrong user/password, whitespace, other schemes, malformed base64, non-UTF-8, \
+        "table: 32 Proxy-Authorization cases (absent, valid x3, wrong user/password, whitespace, other schemes, a registered token without / behind a repeated / behind another scheme, malformed base64, non-UTF-8, \
          empty, duplicates) x 7 request kinds x {HTTP/1.1, HTTP/2} through the real Tunnel with a recording forwarder (every request has its own \
          destination so egress is attributed per request); histories: seeded HTTP/2 sessions of 2-6 interleaved streams with mixed credentials, \
          each stream judged independently; SNI matrix through the real Core::on_tunnel_request + real DirectForwarder against a loopback canary. \
